@@ -317,6 +317,24 @@ def load : Handler := fun args =>
   Json.mkObj [("agree", .bool agree), ("spec", strs spec), ("branch", .str branch), ("P", strs P),
     ("model", match m with | .ok mq => outToJson (.ok (canon mq)) | .undefinedDependency => Json.mkObj [("err", "undefinedDependency")])]
 
-def handlers : List (String × Handler) := [("c15hist", hist), ("c15run", modelRun), ("c15each", each), ("c15load", load)]
+/-! ## `c15seq` (round 6): long histories — the final real project against `run`, and the invariant of `partition_inv` -/
+
+/-- args: `init`, `ops`, `final` (the real project after the whole history; failed operations keep the receiver).
+Result: whether `run init ops` is that project exactly, and the clauses of `history_conserved` the real pair violates. -/
+def seq : Handler := fun args =>
+  let p := canon (projOfJson (getObj args "init"))
+  let ops := (arrOf args "ops").map opOfJson
+  let q := canon (projOfJson (getObj args "final"))
+  let m := canon (run p ops)
+  let good := decide (Partition p) && decide (Named p)
+  let spec : List String :=
+    if !good then ["skipped:not-a-good-project"]
+    else clause "history-partition" (decide (Partition q)) ++
+      clause "history-declared" (decide (SameSet (known p) (known q))) ++
+      clause "history-conserved" (decide (Conserved p q)) ++
+      clause "history-profiles-ok" (decide (ProfilesOK p → ProfilesOK q))
+  Json.mkObj [("agree", .bool (m == q)), ("spec", strs spec), ("model", projToJson m)]
+
+def handlers : List (String × Handler) := [("c15hist", hist), ("c15run", modelRun), ("c15each", each), ("c15load", load), ("c15seq", seq)]
 
 end CV.Ops.C15
